@@ -74,8 +74,16 @@ enum Act { A_CONNECT,
            A_SEND_A_CLOSE,
            A_SEND_W_CLOSE,
            A_SEND_W_SHUTWR,
-           A_SEND_W_RST };
-static const char* kActNames[] = { "connect", "send-first-half", "send-rest", "send-request", "read", "close", "shutdown-wr", "rst", "hold-writes", "release-writes", "tick", "send-first-half+close", "send-request+close", "send-request+shutdown-wr", "send-request+rst" };
+           A_SEND_W_RST,
+           // time passes and the client acts before the server's loops run again (scan tick and socket event in one wake-up)
+           A_TICK_SEND_W,
+           A_TICK_SEND_B,
+           A_TICK_CLOSE,
+           A_TICK_RST,
+           // environment fault: the next write of the server on that connection fails with ECONNRESET (a reset that
+           // reaches the socket between the readiness report and the write)
+           A_FAIL_WRITE };
+static const char* kActNames[] = { "connect", "send-first-half", "send-rest", "send-request", "read", "close", "shutdown-wr", "rst", "hold-writes", "release-writes", "tick", "send-first-half+close", "send-request+close", "send-request+shutdown-wr", "send-request+rst", "tick+send-request", "tick+send-rest", "tick+close", "tick+rst", "next-write-fails" };
 struct Step
 {
     int8_t act, conn;
@@ -90,6 +98,7 @@ struct CState
     int st       = 0; // 0 none, 1 open, 2 half-closed (WR shut), 3 gone
     bool partial = false;
     bool held    = false;
+    bool failArmed = false;
 };
 
 static void gen(History& h, CState c[2], int nconn, int depth, int maxDepth)
@@ -127,9 +136,13 @@ static void gen(History& h, CState c[2], int nconn, int depth, int maxDepth)
                 push(A_SEND_W_CLOSE, k, [](CState& x) { x.st = 3; });
                 push(A_SEND_W_SHUTWR, k, [](CState& x) { x.st = 2; });
                 push(A_SEND_W_RST, k, [](CState& x) { x.st = 3; });
+                push(A_TICK_SEND_W, k, [](CState&) {});
             }
             else
+            {
                 push(A_SEND_B, k, [](CState& x) { x.partial = false; });
+                push(A_TICK_SEND_B, k, [](CState& x) { x.partial = false; });
+            }
             push(A_SHUTWR, k, [](CState& x) { x.st = 2; });
         }
         if (s.st == 1 || s.st == 2)
@@ -137,8 +150,12 @@ static void gen(History& h, CState c[2], int nconn, int depth, int maxDepth)
             push(A_READ, k, [](CState&) {});
             push(A_CLOSE, k, [](CState& x) { x.st = 3; });
             push(A_RST, k, [](CState& x) { x.st = 3; });
+            push(A_TICK_CLOSE, k, [](CState& x) { x.st = 3; });
+            push(A_TICK_RST, k, [](CState& x) { x.st = 3; });
             if (gFaults)
             {
+                if (!s.failArmed)
+                    push(A_FAIL_WRITE, k, [](CState& x) { x.failArmed = true; });
                 if (!s.held)
                     push(A_HOLD, k, [](CState& x) { x.held = true; });
                 else
@@ -284,6 +301,30 @@ static void run_history(const History& h, vr::Ctx& ctx, uint64_t& steps)
         case A_TICK:
             sim::tick(gTickMs);
             after(false);
+            break;
+        case A_TICK_SEND_W:
+            sim::tick(gTickMs);
+            c->send_bytes(kReqA + kReqB);
+            after(true);
+            break;
+        case A_TICK_SEND_B:
+            sim::tick(gTickMs);
+            c->send_bytes(kReqB);
+            after(true);
+            break;
+        case A_TICK_CLOSE:
+            sim::tick(gTickMs);
+            c->close_orderly();
+            after(true);
+            break;
+        case A_TICK_RST:
+            sim::tick(gTickMs);
+            c->reset();
+            after(true);
+            break;
+        case A_FAIL_WRITE:
+            if (r.serverFd[st.conn] >= 0 && still_that_peer(r.srv, r.serverFd[st.conn], r.peerId[st.conn]))
+                sim::fail_next_write(r.serverFd[st.conn], ECONNRESET);
             break;
         }
     }
